@@ -51,9 +51,10 @@ EXPECTED_PROBES = ["ndim1", "ndim2", "ndim3", "unset_cell_read", "zero_row_cell"
                    "set_flattened_identity", "fancy_list_index", "negative_step_slice",
                    "single_cell_via_slice", "integer_cell_field_op", "negative_int_index",
                    "numpy_int_index", "cell_with_many_rows", "dim_ge_8", "fields_ge_5",
-                   "field_assigned_from_field_view_other_field"]
+                   "field_assigned_from_field_view_other_field", "flat_restore",
+                   "flat_restore_single_populated_cell"]
 
-OPS = ["set_cell", "get_cell", "slice_get", "slice_set", "field_op", "flatten", "set_flat",
+OPS = ["set_cell", "get_cell", "slice_get", "slice_set", "field_op", "flatten", "set_flat", "flat_restore",
        "add_fields", "remove_fields", "copy_check", "metadata", "second_vector", "rejected",
        "recreate", "continue_on_copy"]
 _V = None
@@ -136,6 +137,10 @@ def _gen_op(r, kinds):
                 # what stands on the right-hand side: a fresh array, a list, the view of ANOTHER field
                 # of the same vector, or a field view of an independent copy
                 "src": r.fork("src").pick(["array", "array", "list", "view_same", "view_other"])}
+    if k == "flat_restore":
+        # snapshot = flatten(); mutate the field; write the snapshot back: the data must be restored
+        return {"op": k, "f": r.randrange(100), "sym": r.pick(["+", "*", "-"]), "x": r.pick([2, 3, 7, -1.5]),
+                "whole": r.chance(0.3)}
     if k == "add_fields":
         return {"op": k, "n": r.pick([1, 1, 2, 3]), "as_str": r.chance(0.3), "tag": r.randrange(1000)}
     if k == "remove_fields":
@@ -652,6 +657,50 @@ def run(plan):
                             cur += c.shape[0]
                     n_mut[0] += 1
                 check_all("set_flat")
+            elif k == "flat_restore":
+                j = op["f"] % m.nf
+                f = m.fields[j]
+                npop = sum(1 for c in m.cells.values() if c is not None and c.shape[0])
+                if npop == 0:
+                    continue
+                if npop == 1:
+                    bump(probes, "flat_restore_single_populated_cell")
+                bump(probes, "flat_restore")
+                try:
+                    snap = v[f].flatten()
+                    want = np.array(snap, copy=True)
+                    whole = v.flatten() if op["whole"] else None
+                    whole_want = None if whole is None else np.array(whole, copy=True)
+                    fv = v[f]
+                    if op["sym"] == "+":
+                        fv += op["x"]
+                    elif op["sym"] == "-":
+                        fv -= op["x"]
+                    else:
+                        fv *= op["x"]
+                    # results handed out earlier are values, not windows into the vector
+                    if not _arr_eq(np.asarray(snap, dtype=float), np.asarray(want, dtype=float)) or (
+                            whole is not None and not _arr_eq(np.asarray(whole, dtype=float),
+                                                              np.asarray(whole_want, dtype=float))):
+                        viol("flatten_result_aliases_vector", f"a flatten() result of field {f!r} "
+                             f"changed when the field was modified afterwards ({npop} populated "
+                             f"cells)", f"flatten_result_aliases_vector:{sigs}")
+                    v[f].set_flattened(want.copy())
+                except Exception as e:
+                    viol("op_raised", f"flatten / {op['sym']}= / set_flattened on {f!r} raised {e!r}",
+                         f"op_raised:flat_restore:{sigs}")
+                    resync("v")
+                    continue
+                # model: the column is back to what flatten() returned (numpy assignment casting)
+                cur = 0
+                for idx in m.order():
+                    c = m.cells[idx]
+                    if c is not None:
+                        with np.errstate(all="ignore"):
+                            c[:, j] = want[cur:cur + c.shape[0]]
+                        cur += c.shape[0]
+                n_mut[0] += 1
+                check_all("flat_restore")
             elif k == "add_fields":
                 names = [f"n{op['tag']}_{q}" for q in range(op["n"])]
                 names = [x for x in names if x not in m.fields]
